@@ -50,6 +50,9 @@ class _Dummy:
         pass
 
 
+FAIL = [False]      # configuration `fail` of ResourceTracker.tla: every destruction attempt raises (after being recorded)
+
+
 def run_stream(chunks):
     """chunks: list of bytes (one per request line). Returns (cleanups [(type,name,after_line,eof)], reports [line])."""
     calls, reports, st = [], [], {"line": 0, "eof": False}
@@ -64,7 +67,11 @@ def _run_fd(r, calls, reports, st):
     rt.open = lambda fd, mode="rb", *a, **k: _F(real_open(fd, mode, *a, **k), st)
     saved = dict(rt._CLEANUP_FUNCS)
     for k in saved:
-        rt._CLEANUP_FUNCS[k] = (lambda kind: (lambda name: calls.append((kind, name, st["line"], st["eof"]))))(k)
+        def rec(name, kind=k):
+            calls.append((kind, name, st["line"], st["eof"]))
+            if FAIL[0]:
+                raise FileNotFoundError(2, "No such file or directory (removed behind the tracker's back)")
+        rt._CLEANUP_FUNCS[k] = rec
     old_hook, old_sig = sys.excepthook, rt.signal.signal
     sys.excepthook = lambda *a: reports.append(st["line"])
     rt.signal.signal = lambda *a: None
@@ -148,6 +155,7 @@ def main():
             case = json.loads(line)
             n += 1
             if mode == "replay":
+                FAIL[0] = bool(case.get("fail"))
                 lb = [line_bytes(f) for f in case["lines"]]
                 per, order_eof, crashed, nread = observe(lb)
                 why = None
